@@ -820,6 +820,80 @@ def oracle_bookkeeping(ctx, n, given=None):
             ctx.fail("memory_mode_bookkeeping_differs", {"kind": "bookkeeping", "case": c}, {"default": a, "high_memory": b})
 
 
+# ------------------------------------------------------------------------------------------------
+# the hypothesis of memory_mode_equal: both memory modes hand the resolver the same records.  --high_memory builds a
+# BasicReadAssignment from the ReadAssignment in memory, the default mode re-reads the save file with
+# BasicReadAssignment.deserialize_from_read_assignment; field by field the two must agree.
+
+REC_FIELDS = ("assignment_id", "read_id", "chr_id", "start", "end", "genomic_region", "multimapper", "polyA_found",
+              "assignment_type", "gene_assignment_type", "penalty_score", "genes", "isoforms")
+
+
+def record_case(rng):
+    n = rng.randint(0, 3)
+    pool = ["Ta", "Tb", "Tc9", "T10", "ENST7"]
+    return {"read": "r%d" % rng.randint(0, 99), "chr": rng.choice(["chr1", "chr2"]),
+            "exons": sorted([(100 * i + rng.randint(0, 20), 100 * i + 60) for i in range(1, rng.randint(2, 5))]),
+            "matches": [{"gene": rng.choice(["Ga", "Gb"]), "tx": t, "penalty": rng.choice([0, 0.1, 0.6, 1.0, 1.6, 2.5])}
+                        for t in rng.sample(pool, n)],
+            "type": rng.choice(["inconsistent", "inconsistent_non_intronic", "inconsistent_ambiguous", "unique", "ambiguous",
+                                "unique_minor_difference", "noninformative"]),
+            "multimapper": rng.random() < 0.5, "polya": rng.random() < 0.5}
+
+
+def impl_records(case):
+    """-> (fields of BasicReadAssignment(ra), fields of the record re-read from ra's serialisation)"""
+    vlib.repo_on_path()
+    from src.isoform_assignment import (ReadAssignment, BasicReadAssignment, ReadAssignmentType, IsoformMatch,
+                                        MatchClassification)
+    from src.polya_finder import PolyAInfo
+    matches = [IsoformMatch(MatchClassification.undefined, m["gene"], m["tx"], penalty_score=m["penalty"]) for m in case["matches"]]
+    ra = ReadAssignment(case["read"], ReadAssignmentType[case["type"]], matches)
+    ra.chr_id = case["chr"]
+    ra.exons = [tuple(e) for e in case["exons"]]
+    ra.corrected_exons = list(ra.exons)
+    ra.genomic_region = (ra.exons[0][0] - 50, ra.exons[-1][1] + 50)
+    ra.multimapper, ra.polyA_found = case["multimapper"], case["polya"]
+    ra.polya_info = PolyAInfo(-1, -1, -1, -1)
+    ra.exon_gene_profile, ra.intron_gene_profile = [1, -1], [1]
+    ra.introns_match = False
+    buf = io.BytesIO()
+    ra.serialize(buf)
+    buf.seek(0)
+    a = BasicReadAssignment(ra)
+    b = BasicReadAssignment.deserialize_from_read_assignment(buf)
+
+    def fields(x):
+        d = {}
+        for f in REC_FIELDS:
+            v = getattr(x, f)
+            d[f] = v.name if hasattr(v, "name") and hasattr(v, "value") else vlib.canon(v)
+        return d
+    return fields(a), fields(b)
+
+
+def oracle_records(ctx, n, given=None):
+    fixed = [{"read": "mi0", "chr": "chr1", "exons": [(100, 200), (400, 500), (700, 800)], "type": "inconsistent",
+              "matches": [{"gene": "Ga", "tx": "Ta", "penalty": 1.0}], "multimapper": True, "polya": False},
+             {"read": "mi0", "chr": "chr2", "exons": [(100, 200), (300, 600), (700, 800)], "type": "inconsistent",
+              "matches": [{"gene": "Gb", "tx": "Tb", "penalty": 0.6}, {"gene": "Gb", "tx": "Tc9", "penalty": 1.6}],
+              "multimapper": True, "polya": False}]
+    for c in (given or []) + fixed + [record_case(ctx.rng) for _ in range(n)]:
+        r = vlib.call_impl(impl_records, c)
+        ctx.count("oracle_records")
+        if vlib.is_err(r):
+            ctx.notes.append("record constructors raised %s on %s" % (r.get("exc"), c))
+            ctx.count("oracle_records_error")
+            continue
+        a, b = r
+        if a != b:
+            diff = sorted(f for f in REC_FIELDS if a[f] != b[f])
+            ctx.fail("memory_mode_record_differs:" + "+".join(diff), {"kind": "record", "case": c},
+                     {"in_memory": {f: a[f] for f in diff}, "re_read": {f: b[f] for f in diff}})
+        elif c["matches"]:
+            ctx.mark_nontrivial(["record", c])
+
+
 def correspondence(ctx):
     quick = ctx.tier == "quick"
     corr_inventory(ctx)
@@ -853,6 +927,7 @@ def oracle(ctx, disagreements, broken):
              {"kind": "groups", "groups": ["Zeta", "k7", "liver", "m10", "m9"]}]
     oracle_sites(ctx, 30 if quick else 300, seeds, given=given_sites[:20] + fixed)
     oracle_loader(ctx, 200 if quick else 2000)
+    oracle_records(ctx, 300 if quick else 3000)
     oracle_bookkeeping(ctx, 100 if quick else 1000,
                        given=[d["input"] for d in disagreements if d["op"].startswith("bookkeeping_") and isinstance(d["input"], list)][:20])
     # 2. the real pipeline over the configuration matrix
@@ -878,6 +953,9 @@ def replay(ctx, failure):
         seeds = inp["seeds"]
         r = [run_sites([inp["case"]], s)[0] for s in seeds]
         return r[0] != r[1]
+    if inp.get("kind") == "record":
+        r = vlib.call_impl(impl_records, inp["case"])
+        return vlib.is_err(r) or r[0] != r[1]
     if inp.get("kind") == "bookkeeping":
         return vlib.call_impl(impl_bookkeeping, inp["case"], False) != vlib.call_impl(impl_bookkeeping, inp["case"], True)
     if inp.get("kind") == "loader":
